@@ -14,10 +14,63 @@ def run_scenarios(names, reps=1, workers=6):
     return jobs, out
 
 
+def run_random(seeds, workers=6):
+    seeds = list(seeds)
+    with ThreadPoolExecutor(max_workers=workers) as ex:
+        out = list(ex.map(e2.sc_random, seeds))
+    return [f"random:{s}" for s in seeds], out
+
+
+def announced_deletion_variant(ev, reached):
+    """The log orders the *announcements*: a reclaim thread logs tok.file.delete before it unlinks, a recount has no event of its
+    own (it happens between tok.acq.lock and tok.acq.count of its process). When a reclaim thread announces a deletion inside
+    that window, the log cannot tell whether the recount saw the file: both orders are executions of the code. If the trace is
+    rejected at such a tok.acq.count, the other order -- the deletion after the count -- is validated as well (the trace is
+    accepted iff one of the two orders is a behaviour of the model). Returns the reordered event list, or None"""
+    if reached is None or reached >= len(ev) or ev[reached]["e"] != "tok.acq.count":
+        return None
+    p = ev[reached].get("p")
+    lock = max((k for k in range(reached) if ev[k]["e"] == "tok.acq.lock" and ev[k].get("p") == p), default=None)
+    if lock is None:
+        return None
+    moved = []
+    for k in range(max(0, lock - 12), reached):
+        e = ev[k]
+        if e["e"] == "tok.file.delete" and (e.get("p") != p or e.get("job") != ev[lock].get("job")):
+            # announced before the count; nothing logged since shows that the file was gone before the count (a deletion
+            # event handled by some observer, a release that completed)
+            if any(x["e"] in ("tok.evt.deleted", "tok.rel.ok") and x.get("job") == e.get("job") for x in ev[k + 1:reached]):
+                continue
+            moved.append(k)
+            # (the decision of the same thread, logged just before, goes with it)
+            if k > 0 and ev[k - 1]["e"] == "tok.watch.reclaim" and ev[k - 1].get("p") == e.get("p") and ev[k - 1].get("job") == e.get("job"):
+                moved.append(k - 1)
+    if not moved:
+        return None
+    moved = sorted(set(moved))
+    return [ev[k] for k in range(reached + 1) if k not in moved] + [ev[k] for k in moved] + ev[reached + 1:]
+
+
 def validate(results, fixed=True):
     traces = [{"wl": r["wl"], "ev": r["ev"]} for r in results]
     cfg = "XpmTokenFS_Trace.cfg" if fixed else "XpmTokenFS_Trace_pinned.cfg"
-    return tlc.validate_batch("XpmTokenFS_Trace.tla", cfg, traces, shard=8, deque=True)
+    verdicts, stats = tlc.validate_batch("XpmTokenFS_Trace.tla", cfg, traces, shard=8, deque=True)
+    # second look at the traces rejected at a recount that a reclaim thread's announced deletion overlaps (at most 3 times each)
+    stats["reordered"] = 0
+    for _ in range(3):
+        again = [(i, announced_deletion_variant(traces[i]["ev"], v["reached"])) for i, v in enumerate(verdicts) if not v["accepted"]]
+        again = [(i, ev) for i, ev in again if ev is not None]
+        if not again:
+            break
+        v2, s2 = tlc.validate_batch("XpmTokenFS_Trace.tla", cfg, [{"wl": traces[i]["wl"], "ev": ev} for i, ev in again], shard=8, deque=True)
+        stats["errors"] += s2["errors"]
+        for (i, ev), v in zip(again, v2):
+            if v["accepted"] or (v["reached"] or 0) > (verdicts[i]["reached"] or 0):
+                traces[i]["ev"] = ev
+                results[i]["ev"] = ev           # (what is reported is the order that was validated)
+                verdicts[i] = v
+                stats["reordered"] += 1
+    return verdicts, stats
 
 
 if __name__ == "__main__":
